@@ -47,7 +47,28 @@ var enginePrograms = []string{
 	`!b1`, `tr(n1) + 1`, `string(b1)`, `n1 + 2`, `len(s1)`, `len(n1)`, `cnst()`, `if(b1, tr(n1), 2)`, `idp(n1)`, `idp(s1)`,
 	`print(n1)`, `string([n1, 2])`, `lz(n1, boom(1))`, `n1 <> 2`, `tr(n1 <> n2) + tr(1)`, `string(n1) + s1`, `!(n1 > n2) && b1`,
 	`xs[0] + len(xs)`, `tr2(n1, n2)`, `boom(n1)`, `n1 +`, `nosuch(n1)`, `s1 + n1`,
+	// longer programs (deeper operand stacks, more constants); what the bytecode compiler REFUSES is
+	// in engineRefusalCase
+	engineLongList(60), "len(" + engineLongList(50) + ") + tr(n1)", engineNested(45),
 	`sel(n1, s1)`, `sel(n1, n2)`, `sel(s1, s1)`, `sel(b1, s1)`, `sel(n1, xs)[0]`, `get(["a": 1], "a", 0)`, `get([1: 2], 1, 0)`, `get(["a": n1], s1, n2) + sel(n1, n2)`,
+}
+
+// engineLongList: `[1, 2, …, n][0]`
+func engineLongList(n int) string {
+	xs := make([]string, n)
+	for i := range xs {
+		xs[i] = fmt.Sprint(i + 1)
+	}
+	return "[" + strings.Join(xs, ", ") + "][0]"
+}
+
+// engineNested: `n1 + (n1 + (… + 1))`, n levels
+func engineNested(n int) string {
+	s := "1"
+	for i := 0; i < n; i++ {
+		s = "n1 + (" + s + ")"
+	}
+	return s
 }
 
 func engineHistoryCase(r *rand.Rand) Case {
@@ -173,7 +194,10 @@ func engineHistoryCase(r *rand.Rand) Case {
 				c.Oracle, c.OracleID = "Compile panics: "+cerr.Error(), "api-panic"
 			default:
 				msg := cerr.Error()
-				if strings.Contains(msg, "syntax error") || strings.Contains(msg, "invalid num literal") || strings.Contains(msg, "nothing token matched") || strings.Contains(msg, "expect right pos") {
+				if msg == "overflow" {
+					want = append(want, "(compiled err overflow)")
+					c.Tags = append(c.Tags, "engine:compile:vm-refuses")
+				} else if strings.Contains(msg, "syntax error") || strings.Contains(msg, "invalid num literal") || strings.Contains(msg, "nothing token matched") || strings.Contains(msg, "expect right pos") {
 					want = append(want, "(compiled err syntax)")
 				} else {
 					want = append(want, sxList("compiled", "err", classifyCheckErr(msg)))
@@ -258,9 +282,13 @@ func engineHistoryCase(r *rand.Rand) Case {
 func init() {
 	register(&Stream{
 		Name: "engine",
-		Rule: "random histories of 5-14 API calls on ONE yae.Expr: RegisterFun (12 host functions plus 12 that collide with built-ins or with each other: same monomorphic key with another behaviour, polymorphic signature under a built-in's name), RegisterOperator, UseCompiler (vm / closure / interp / closure.DebugCompile), UseBuiltIn(false), Compile (fixed programs incl. ill-typed and unparseable ones, and type-directed random ones over the functions registered so far), invocation of ANY Callable obtained so far (same values, fresh values, a missing name, a mistyped name); the model's Engine.run answers the whole history, compared output by output. Non-trivial = every history; distinct = distinct request.",
+		Rule: "random histories of 5-14 API calls on ONE yae.Expr: RegisterFun (12 host functions plus 12 that collide with built-ins or with each other: same monomorphic key with another behaviour, polymorphic signature under a built-in's name), RegisterOperator, UseCompiler (vm / closure / interp / closure.DebugCompile), UseBuiltIn(false), Compile (fixed programs incl. ill-typed and unparseable ones, and type-directed random ones over the functions registered so far), invocation of ANY Callable obtained so far (same values, fresh values, a missing name, a mistyped name); the model's EngineVm.run (the engine whose vm back end compiles to bytecode and runs the machine; a refusal of the bytecode compiler is a compile error) answers the whole history, compared output by output. Non-trivial = every history; distinct = distinct request.",
 		Gen: func(r *rand.Rand, n int, thorough bool) []Case {
 			var cs []Case
+			if thorough {
+				// ≈ 3 minutes in the model (three sources of 66 000 members): thorough tier only
+				cs = append(cs, engineRefusalCase())
+			}
 			for i := 0; i < n; i++ {
 				cs = append(cs, engineHistoryCase(r))
 			}
